@@ -64,7 +64,15 @@ class T:
         self.rep = rep
         self.facts = facts
 
-    def table(self, pattern):
+    def table(self, pattern, optional=False):
+        """optional: a table whose unit is decided by an E1 contract as well - an implementation that computes the
+        value instead of looking it up has no such table, which is not an anchor failure"""
+        if optional:
+            rx = re.compile(pattern)
+            hits = [c for d, c in self.facts.consts.items() if rx.search(d)]
+            if not hits:
+                self.rep.notes.append(f"no constant matching /{pattern}/ in this tree: the unit is decided by its E1 contract alone")
+                return None, None
         c = find_const(self.facts, pattern)
         return c['def'], py(c['val'])
 
@@ -95,7 +103,9 @@ def fold7(k):
 def offset_table(t: T, pattern, rule_name, offset_of_index, reachable, folded):
     """tables of (fn, days): entry i must subtract offset_of_index(i) days (folded to [-3,3] for rounding);
     `current_date` is allowed only with offset 0.  unreachable slots are not constrained here (E1 proves the index range)."""
-    name, tab = t.table(pattern)
+    name, tab = t.table(pattern, optional=True)
+    if name is None:
+        return
     if not isinstance(tab, list) or len(tab) != 8:
         t.rep.ob(f"E3|{name}|len", False, f"table {name}: expected 8 entries", rule='E3-table')
         return
@@ -213,8 +223,9 @@ def name_style_order(facts):
 
 def c10_tables(rep, facts):
     t = T(rep, facts)
-    name, tab = t.table(r'trunc_quarter::QUARTER_FIRST_MONTH$')
-    t.entries(name, tab, [3 * (i // 3) + 1 for i in range(12)], "first month of the quarter of month i+1")
+    name, tab = t.table(r'trunc_quarter::QUARTER_FIRST_MONTH$', optional=True)
+    if name is not None:
+        t.entries(name, tab, [3 * (i // 3) + 1 for i in range(12)], "first month of the quarter of month i+1")
     # index = weekday number 1..=7 (Sunday = 1); ISO weeks start on Monday
     offset_table(t, r'trunc_iso_week::ISO_WEEK_TABLE$', 'days back to Monday', lambda w: (w - 2) % 7, range(1, 8), folded=False)
     offset_table(t, r'date::ISO_YEAR_TABLE$', 'nearest Monday to 1 January = first ISO week (weekday of 1 Jan -> offset folded to [-3,3])', lambda w: (w - 2) % 7, range(1, 8), folded=True)
@@ -227,8 +238,8 @@ def c11_tables(rep, facts):
     offset_table(t, r'round_week_internal::WEEK_TABLE$', 'index = days since the week start (0..6), fifth day rounds up', lambda k: k % 7, range(0, 7), folded=True)
     offset_table(t, r'round_month_start_week_internal::MONTH_START_WEEK_TABLE$', 'index = day of month mod 7, week starts on days 1,8,15,..', lambda k: (k - 1) % 7, range(0, 7), folded=True)
     # quarter rounding: "up from the 16th of the quarter's second month"
-    name, rnd = t.table(r'round_quarter::QUARTER_ROUND_MONTH$')
-    name2, trn = t.table(r'round_quarter::QUARTER_TRUNC_MONTH$')
+    name, rnd = t.table(r'round_quarter::QUARTER_ROUND_MONTH$', optional=True)
+    name2, trn = t.table(r'round_quarter::QUARTER_TRUNC_MONTH$', optional=True)
 
     def spec(month, late):
         q0 = 3 * ((month - 1) // 3) + 1          # first month of the quarter
@@ -236,8 +247,10 @@ def c11_tables(rep, facts):
         up = month > second or (month == second and late)
         m = q0 + 3 if up else q0
         return 1 if m == 13 else m
-    t.entries(name, rnd, [spec(m, True) for m in range(1, 13)], "day >= 16: up iff month >= second month of the quarter")
-    t.entries(name2, trn, [spec(m, False) for m in range(1, 13)], "day < 16: up iff month > second month of the quarter")
+    if name is not None:
+        t.entries(name, rnd, [spec(m, True) for m in range(1, 13)], "day >= 16: up iff month >= second month of the quarter")
+    if name2 is not None:
+        t.entries(name2, trn, [spec(m, False) for m in range(1, 13)], "day < 16: up iff month > second month of the quarter")
     t.scalar(r'date::ROUNDS_UP_DAY$', 16, 'the 16th is the first day that rounds a month up')
 
 
